@@ -163,8 +163,106 @@ def t_renumber(rng, sc):
     return [s2], "renumber"
 
 
+def add_multiport(rng, sc, k):
+    """a k-port standard on randomly ordered ports, measurement matrix as abbreviated as the type allows"""
+    ports = rng.sample(range(1, sc.p + 1), k)
+    S = calcore.const_over_f(sc.F, calcore.rand_full_s(rng, k, 1.6))
+    st = calcore.Std("mm", ports, S, scalar=True)
+    rows, cols = calcore.m_shape_options(sc.typ, sc.r, sc.c, st)
+    st.brows, st.bcols = rows[-1], cols[-1]
+    st.form = rng.choice(["m", "ab"])
+    calcore.finish_std(rng, sc, st, sc.fill)
+    sc.stds.insert(rng.randrange(len(sc.stds) + 1), st)
+
+
+def t_full_multi(rng, sc):
+    """full vs abbreviated with 3- and 4-port standards on arbitrarily permuted ports"""
+    for _ in range(3):
+        if sc.p >= 3:
+            add_multiport(rng, sc, rng.randint(3, sc.p) if sc.p > 3 and rng.random() < 0.3 else 3)
+    return t_full(rng, sc)
+
+
+def t_order_noisy(rng, sc):
+    """order of the standards on inconsistent (noisy) over-determined data with measurement-error modelling"""
+    sc.merror = (1e-3, 1e-3)
+    for st in sc.stds:
+        for f in range(sc.F):
+            for row in st.Mfull[f]:
+                for j in range(len(row)):
+                    row[j] += complex(rng.uniform(-1, 1), rng.uniform(-1, 1)) * 2e-4
+    s2 = copy.deepcopy(sc)
+    rng.shuffle(s2.stds)
+    s3 = copy.deepcopy(sc)
+    s3.stds.reverse()
+    return [s2, s3], "value-strict"
+
+
 TRANSFORMS = [("through=line=mapped", t_entry), ("full=abbreviated", t_full), ("order", t_order),
-              ("ab-scaling", t_scale), ("E12=UE14", t_e12), ("renumbering", t_renumber)]
+              ("ab-scaling", t_scale), ("E12=UE14", t_e12), ("renumbering", t_renumber),
+              ("full=abbreviated(3-4 ports)", t_full_multi), ("order(noisy,m_error)", t_order_noisy)]
+
+
+# ----------------------------------------------------------------------------- interpolation-hint histories
+class HintScript(calcore.Script):
+    """Frequency-dependent standards are given on a 12-point table that does not contain the calibration
+    frequencies (values S(f0) exp(j phi (f - f0)/f0): a delay line), so that the library interpolates."""
+    def param(self, values, freqs, allow_predef=True):
+        import cmath
+        if all(v == values[0] for v in values) or values[0] == 0:
+            return calcore.Script.param(self, values, freqs, allow_predef)
+        f0 = freqs[0]
+        phi = cmath.log(values[1] / values[0]).imag / ((freqs[1] - f0) / f0)
+        knots = [f0 * (0.2 + 0.35 * j) for j in range(12)]     # calibration points fall into lower halves of inner segments
+        vals = [values[0] * cmath.exp(1j * phi * (g - f0) / f0) for g in knots]
+        pid = self.npar
+        self.npar += 1
+        self.lines.append("vector %d %d %s %s" % (pid, len(knots), " ".join(calcore.hx(g) for g in knots),
+                                                  " ".join(calcore.cx(v) for v in vals)))
+        self.vector_queries.append((pid, knots[-2] + 0.41 * (knots[-1] - knots[-2])))
+        return "p%d" % pid
+
+
+def delay_line_standards(rng, sc):
+    """make every frequency-dependent standard a pure phase rotation over frequency"""
+    import cmath
+    f0 = sc.freqs[0]
+    for st in sc.stds:
+        if st.scalar:
+            continue
+        k = len(st.S[0])
+        phi = [[rng.uniform(0.3, 1.2) for _ in range(k)] for _ in range(k)]
+        base = st.S[0]
+        st.S = [[[base[a][b] * cmath.exp(1j * phi[a][b] * (f - f0) / f0) for b in range(k)] for a in range(k)]
+                for f in sc.freqs]
+    refinish(rng, sc)
+
+
+def hint_scripts(rng, sc):
+    """[(label, text)]: the same calibration after different histories of its vector parameters"""
+    s = HintScript()
+    calcore.scenario_script(sc, script=s, dump=False)
+    s.vector_queries, vq = [], s.vector_queries        # no queries in the base script
+    base = [l for l in s.lines if not l.startswith("pvalue ")]
+    i = base.index("solve 0")
+    out = [("base", "\n".join(base) + "\n")]
+    if not vq:
+        return out
+    q = ["pvalue %d %s" % (pid, calcore.hx(f)) for pid, f in vq]
+    out.append(("queried above the band first", "\n".join(base[:i] + q + base[i:]) + "\n"))
+    out.append(("second solve", "\n".join(base[:i] + ["solve 0"] + base[i:]) + "\n"))
+    # an unrelated 1x1 calibration in a higher band that uses the same kit parameter, solved first
+    pid = vq[0][0]
+    f0 = sc.freqs[0]
+    hi = [f0 * 2.95, f0 * 3.4]
+    other = ["scalar 900 %s %s" % (calcore.hx(-0.9), calcore.hx(0.1)), "scalar 901 %s %s" % (calcore.hx(0.8), calcore.hx(-0.2)),
+             "new 1 0 1 1 2 %s %s" % (calcore.hx(hi[0]), calcore.hx(hi[1]))]
+    for k, tok in enumerate(["p%d" % pid, "p900", "p901"]):
+        other.append("add 1 sr m 0 0 1 1 %s %s %s %s %s 1" % (calcore.hx(0.3 + 0.2 * k), calcore.hx(0.1 * k),
+                                                             calcore.hx(0.25 + 0.2 * k), calcore.hx(-0.1 * k), tok))
+    other += ["solve 1", "addcal 1 hiband"]
+    out.append(("unrelated higher-band calibration sharing the parameter first", "\n".join(base[:i] + other + base[i:]) + "\n"))
+    return out
 
 
 def script_of(sc, dump=True):
@@ -195,7 +293,7 @@ def run(ctx):
     coq_ok, res = ctx.coq_obligations(files)
 
     exe = ctx.build_harness("calcore_e2e", san=True, wrap=True, defines=["CALCORE_WRAP"])
-    npairs = 8 if ctx.tier == "quick" else 60
+    npairs = 28 if ctx.tier == "quick" else 120
     jobs = []
     for tname, tf in TRANSFORMS:
         for i in range(npairs):
@@ -210,6 +308,12 @@ def run(ctx):
                 if tname == "renumbering" and r != c:
                     continue
                 if tname in ("through=line=mapped",) and max(r, c) < 2:
+                    continue
+                if tname == "full=abbreviated(3-4 ports)" and (max(r, c) < 4 or calcore.is_16(typ) and rng.random() < 0.5):
+                    continue
+                if tname == "order(noisy,m_error)" and (calcore.is_16(typ) or max(r, c) < 2):
+                    continue
+                if tname == "order(noisy,m_error)" and i % 2 == 0 and not (typ in ("UE14", "E12") and c >= 2):
                     continue
                 break
             form = "ab" if tname == "ab-scaling" else None
@@ -235,6 +339,22 @@ def run(ctx):
         other = calcore.gen_scenario(rng, typ2, r2, c2, rng.randint(1, 2))
         other.name = "other"
         special.append((sc, other))
+
+    hint_jobs = []
+    for i in range(npairs):
+        rng = random.Random(ctx.rng.getrandbits(64))
+        typ = rng.choice(TYPES)
+        while True:
+            r, c = rng.randint(1, 3), rng.randint(1, 3)
+            if dims_allowed(typ, r, c) and calcore.apply_accepts(r, c):
+                break
+        sc = calcore.gen_scenario(rng, typ, r, c, rng.randint(2, 3), vector_prob=0.9)
+        delay_line_standards(rng, sc)
+        hint_jobs.append((sc, hint_scripts(rng, sc)))
+
+    def run_hint(job):
+        sc, scripts = job
+        return [(label,) + run_script(ctx, exe, text) for label, text in scripts]
 
     def run_group(job):
         tname, mode, group, sc = job
@@ -275,6 +395,7 @@ def run(ctx):
     with concurrent.futures.ThreadPoolExecutor(max_workers=min(8, vplib.NPROC)) as ex:
         gres = list(ex.map(run_group, jobs))
         sres = list(ex.map(run_special, special))
+        hres = list(ex.map(run_hint, hint_jobs))
 
     bad = []
     worst = {}
@@ -317,7 +438,7 @@ def run(ctx):
         if not d <= TOL:
             # ill-conditioned draw? both sides must then also be far from the true DUT matrix
             truth = [[x for row in sc.dut[f] for x in row] for f in range(sc.F)]
-            if mode != "renumber" and rel_diff(truth, ref) > TOL:
+            if mode not in ("renumber", "value-strict") and rel_diff(truth, ref) > TOL:
                 continue
             problem = "applied S-parameters differ by %.3g relative" % d
         if problem is None and mode == "exact":
@@ -335,6 +456,8 @@ def run(ctx):
                         "%s on %s %dx%d: %s" % (tname, sc.typ, sc.r, sc.c, problem), sc))
         else:
             used += 1
+            ctx.extra.setdefault("pairs_per_transformation", {})
+            ctx.extra["pairs_per_transformation"][tname] = ctx.extra["pairs_per_transformation"].get(tname, 0) + 1
             ctx.nontrivial.add((tname, used))
             if used % 11 == 0:
                 ctx.sample({"transformation": tname, "scenario": calcore.describe(sc), "relative_difference": d})
@@ -373,12 +496,43 @@ def run(ctx):
             continue
         used += 2
         ctx.nontrivial.add(("special", used))
+    nh = 0
+    for (sc, scripts), results in zip(hint_jobs, hres):
+        ctx.count()
+        if len(results) < 2:
+            continue            # no frequency-dependent standard in this draw
+        if any(rc != 0 for _, rc, _, _ in results):
+            _, rc, _, err = [x for x in results if x[1] != 0][0]
+            fault(rc, err, "interpolation-hint history", sc)
+            continue
+        outs = [(label, applied(recs), [x["E"] for k, x in recs if k == "terms" and "E" in x]) for label, _, recs, _ in results]
+        if outs[0][1] is None:
+            continue            # base run did not solve (inconsistent draw): nothing to compare
+        bad_here = None
+        for label, o, e in outs[1:]:
+            d = rel_diff(outs[0][1], o)
+            if e and outs[0][2]:
+                d = max(d, rel_diff(outs[0][2][-1], e[-1]))
+            worst["hint-history"] = max(worst.get("hint-history", 0.0), d if d == d else 0.0)
+            if not d <= TOL:
+                bad_here = (label, d)
+                break
+        if bad_here:
+            bad.append(({"kind": "pair", "transformation": "hint-history", "class": "differ", "type": sc.typ},
+                        "%s %dx%d with frequency-dependent standards: result after '%s' differs from the plain run by %.3g "
+                        "(the value of a vector parameter depends on where it was evaluated before)" % (
+                            sc.typ, sc.r, sc.c, bad_here[0], bad_here[1]), sc))
+        else:
+            used += 1
+            nh += 1
+            ctx.nontrivial.add(("hint", nh))
+    ctx.extra["hint_history_groups_compared"] = nh
     ctx.traces_validated += used
     ctx.extra["pairs_compared"] = used
     ctx.extra["worst_relative_difference"] = worst
-    total = len(jobs) + len(special)
+    total = len(jobs) + len(special) + len(hint_jobs)
     ok = not bad and used >= total * 3 // 4
-    ctx.obligation("tie:pairs of equivalent descriptions through the C API (8 transformations)", ok,
+    ctx.obligation("tie:pairs of equivalent descriptions / histories through the C API (11 transformations)", ok,
                    bad[0][1] if bad else ("only %d of %d pairs usable" % (used, total) if not ok else ""))
     seen = set()
     for sig, what, sc in bad:
